@@ -820,6 +820,13 @@ impl Error
 		}
 	}
 
+	/// Verification hook: the primary location of this diagnostic.
+	#[cfg(penne_verif)]
+	pub fn verif_primary_location(&self) -> &Location
+	{
+		self.location()
+	}
+
 	#[cfg_attr(coverage, no_coverage)]
 	#[cfg(not(tarpaulin_include))]
 	pub fn build_report(
